@@ -28,6 +28,7 @@ mod hid;
 mod status;
 mod rpid;
 mod cbor;
+mod ceremony;
 
 fn main() {
     let args: Vec<String> = std::env::args().collect();
@@ -41,6 +42,8 @@ fn main() {
         "flags-byte" => guarded(move || status::flags_byte(&hex(&arg))),
         "cbor-bytes" => guarded(move || cbor::bytes(&hex(&arg))),
         "cbor-make-credential-request" => guarded(move || cbor::mc_request(&hex(&arg))),
+        "ceremony" => guarded(move || ceremony::run(&arg)),
+        "c18-trait" => ceremony::c18(&arg),
         "rpid-web" => guarded(move || rpid::web(&arg)),
         "hid-packets" => guarded(move || hid::packets_no_panic(&arg)),
         "hid-roundtrip" => guarded(move || hid::roundtrip(&arg)),
